@@ -222,6 +222,18 @@ func c04Sessions() []c04Session {
 			}
 		}
 	}
+	// the number of result-format codes of a Bind against the number of columns of the statement (fewer, as many,
+	// more), the portal described and executed, for statements of 0..3 columns
+	for cols := 0; cols <= 3; cols++ {
+		for r := 0; r <= 5; r++ {
+			rf := make([]int16, r)
+			for i := range rf {
+				rf[i] = int16((i + r) % 2)
+			}
+			out = append(out, c04Session{Name: fmt.Sprintf("bind with %d result-format codes on a statement of %d columns, described and executed", r, cols), NoPrefix: true,
+				Segs: [][]byte{pgproto.Startup("user", "u"), pgproto.Parse("s", fmt.Sprintf("%d:r,c=SELECT 1", cols)), pgproto.Bind("p", "s", nil, nil, rf), pgproto.Describe('P', "p"), pgproto.Execute("p", 0), pgproto.Sync(), pgproto.Query(progRows)}})
+		}
+	}
 	// an oversized message followed by a message whose payload is a run of well-framed queries: if the
 	// oversized body is skipped by the wrong amount, the reader resumes inside that payload
 	frame := pgproto.Query("smuggled")
